@@ -1322,7 +1322,7 @@ def family_sources(rnd, n):
     out = []
     for i in range(n):
         ast = fams[i % len(fams)]()
-        layout = ("canon", "min", "pad", "typed")[i % 4]
+        layout = ("canon", "min", "pad", "typed", "alt")[i % 5]
         lang.flatten(ast)          # node ids decide where the typed layout puts annotations
         out.append((f"gen:{i}", lang.to_source(ast, layout)[0]))
     return out
